@@ -236,7 +236,7 @@ SRC_TIE = {
     'C01': ['Codec', 'Msg'], 'C02': ['Codec', 'Msg', 'MsgDecision'], 'C03': ['Codec'],
     'C04': ['Tok', 'Parser', 'ParserSession', 'ParserResync'], 'C05': ['Tok', 'Parser', 'ParserSession'], 'C06': ['Tok', 'Parser', 'ParserSession', 'ParserResync'], 'C18': ['Tok', 'Sockets'], 'C19': ['Tok', 'Parser', 'Syx'],
     'C07': ['Vlq', 'VlqRead', 'Tracks', 'Writer', 'Reader', 'FileRoundTrip'], 'C08': ['Vlq', 'VlqRead', 'Writer', 'Reader', 'FileConformance'], 'C09': ['Meta', 'Vlq', 'MetaFrame', 'MetaRoundTrip'], 'C10': ['Ports', 'PortsIter'], 'C11': ['Ports', 'PortsIter', 'PortsLifecycle'],
-    'C12': ['Tracks', 'TracksMerge'], 'C13': ['Timing'], 'C17': ['Charset'], 'C16': ['Tracks', 'MergedTrack'], 'C20': ['Backend'],
+    'C12': ['Tracks', 'TracksMerge'], 'C13': ['Timing'], 'C17': ['Charset'], 'C16': ['Tracks', 'MergedTrack'], 'C20': ['Backend'], 'C15': ['Frozen'],
 }
 SRC_TIE_FILES = {
     'Codec': ['mido/messages/encode.py', 'mido/messages/decode.py', 'mido/messages/checks.py'],
@@ -244,6 +244,7 @@ SRC_TIE_FILES = {
     'MetaFrame': ['mido/midifiles/meta.py'],
     'Ports': ['mido/ports.py'],
     'Backend': ['mido/backends/backend.py'],
+    'Frozen': ['mido/frozen.py'],
     'Timing': ['mido/midifiles/midifiles.py'],
     'Sockets': ['mido/sockets.py'],
     'Syx': ['mido/syx.py', 'mido/parser.py', 'mido/tokenizer.py'],
